@@ -149,15 +149,21 @@ PROPS = {
     "C16": dict(
         lean_targets=["BB.Props.C16"],
         theorems=["BB.Props.C16.chainInv_step", "BB.Props.C16.chain_at_most_once", "BB.Props.C16.chain_exactly_once",
-                  "BB.Props.C16.combineInv_step", "BB.Props.C16.combine_iff", "BB.Props.C16.conflInv_step", "BB.Props.C16.conflated_iff"],
-        corr=[dict(family="ctx", quick=150, thorough=6000, mismatch_is_violation=True,
+                  "BB.Props.C16.combineInv_step", "BB.Props.C16.combine_iff", "BB.Props.C16.conflInv_step", "BB.Props.C16.conflated_iff",
+                  "BB.Props.C16.combine_build_cancelled_has_cause", "BB.Props.C16.combine_build_wired_complete", "BB.Props.C16.combine_build_wired_sound",
+                  "BB.Props.C16.confl_build_is_model_state", "BB.Props.C16.confl_never_input_is_wired"],
+        corr=[dict(family="ctx", quick=300, thorough=8000, mismatch_is_violation=True,
                    nontrivial=has("simultaneous", "both_pre", "primary_pre", "other_pre", "nil_other", "nil_primary", "all_inputs_cancelled",
-                                  "cancelfn", "some_pre", "all_pre"),
+                                  "cancelfn", "some_pre", "all_pre", "cancel_between_precheck_and_registration", "never_other", "never_input",
+                                  "input_cancelled_after_wiring_during_build", "input_cancelled_before_its_check", "primary_cancelled_during_build"),
                    rule="ctx: ChainAfterFunc / CombineContext / ConflatedContext built over 0-4 inputs (live, already cancelled, nil), then cancelled in "
                         "every generated order incl. simultaneously (goroutines behind a barrier); Err() of the result / the call counter of the chained "
                         "function read after quiescence (stable over several reads) and compared with the Lean transition systems run to quiescence; the "
                         "values carried and the number of goroutines left at the end are checked too; non-trivial = simultaneous cancellation, inputs "
-                        "already cancelled or nil at construction, all inputs cancelled, explicit cancel function")],
+                        "already cancelled or nil at construction, all inputs cancelled, explicit cancel function; mkcombinet / mkconflatedt (T4): the inputs are "
+                        "wrapped in a context type whose first Err() call during the constructor cancels model-chosen other inputs (so a cancellation lands between an "
+                        "input's pre-check and its registration, or before its check), inputs that can never be cancelled (Done() == nil) are included; the result is "
+                        "compared with BB.Ctx.combineBuild / conflBuild")],
         assumptions=["context.WithCancel/AfterFunc/WithoutCancel semantics are modelled: cancellation fires each armed registration once and schedules its "
                      "callback as a new goroutine; stop() atomically disarms", "observation is after quiescence (scheduler fairness for the callback goroutines)"],
     ),
